@@ -54,6 +54,23 @@ def main():
         known = common.load_known()
         audit = common.lean_build_and_audit(prop, thorough=(tier == "thorough"))
         spec = mod.run(res, rng, tier, known)
+        if res.violations and all(ni for _, ni in res.violations) and not audit.get("build_failed"):
+            # a correspondence (or obligation) broke but no input violated the property itself:
+            # directed search for a concrete failing input with fresh seeds before giving the verdict
+            t_search = time.time()
+            for k in range(1, 4):
+                if time.time() - t_search > (120 if tier == "quick" else 900):
+                    break
+                res2 = common.Result(prop, tier, seed)
+                try:
+                    mod.run(res2, random.Random(seed * 7919 + 17 + 1000003 * k), tier, known)
+                except Exception:
+                    break
+                res.extra["directed_search_cases"] = res.extra.get("directed_search_cases", 0) + res2.evaluations
+                found = [(p_, ni) for p_, ni in res2.violations if not ni]
+                if found:
+                    res.violations += found
+                    break
         return common.finish(res, audit, spec["level"], spec["rule"], spec["assumptions"], known,
                              extra_cov=spec.get("extra"), thm_note=spec.get("not_by_theorem"))
     except Exception:
